@@ -245,6 +245,7 @@ class Cell:
         self.entry: Dict[str, Any] = {}
         self.cur: Dict[str, Any] = {}
         self.mirror: Optional[Tuple[int, int, bool]] = None  # (clone op id, original cid, from_root)
+        self.retained = False  # allocated outside the analysed call (default argument, module/rule state)
         self.updepth = 0
         self.alloc_site = ""
 
@@ -316,6 +317,7 @@ class Interp:
         self.global_writes: List[tuple] = []
         self.site = ""
         self.halt_depth: Optional[int] = None
+        self.retained_mode = 0
 
     # ------------------------------------------------------------------ choice
     def choose(self, n: int, label: str, options: Optional[List[str]] = None) -> int:
@@ -338,6 +340,7 @@ class Interp:
     # ------------------------------------------------------------------ heap
     def new_cell(self, kinds, fresh: bool, origin: str) -> Cell:
         c = Cell(self.next_cid, frozenset(kinds), fresh, origin)
+        c.retained = self.retained_mode > 0
         self.next_cid += 1
         self.cells[c.cid] = c
         return c
@@ -896,6 +899,8 @@ class Interp:
         if len(args) > len(params):
             if a.vararg is None:
                 raise AbsRaise("TypeError", info.where, "too many positional arguments")
+        if a.vararg is not None:
+            env.vars[a.vararg.arg] = Tup(args[len(params):])
         for i, p in enumerate(params):
             if i < len(args):
                 env.vars[p] = args[i]
@@ -904,14 +909,14 @@ class Interp:
             else:
                 di = i - (len(params) - ndef)
                 if di >= 0:
-                    env.vars[p] = self.eval(defaults[di], Env(self, None, info.module))
+                    env.vars[p] = self._eval_retained(defaults[di], Env(self, None, info.module))
                 else:
                     raise AbsRaise("TypeError", info.where, f"missing argument {p}")
         for j, p in enumerate(a.kwonlyargs):
             if p.arg in kwargs:
                 env.vars[p.arg] = kwargs.pop(p.arg)
             elif a.kw_defaults[j] is not None:
-                env.vars[p.arg] = self.eval(a.kw_defaults[j], Env(self, None, info.module))
+                env.vars[p.arg] = self._eval_retained(a.kw_defaults[j], Env(self, None, info.module))
             else:
                 raise AbsRaise("TypeError", info.where, f"missing kw argument {p.arg}")
         if kwargs:
@@ -921,6 +926,17 @@ class Interp:
                 raise AbsRaise("TypeError", info.where, f"unexpected kwargs {list(kwargs)}")
         elif a.kwarg is not None:
             env.vars[a.kwarg.arg] = Dct()
+
+    def _eval_retained(self, e: ast.expr, env: "Env"):
+        """Evaluate an expression whose value outlives the analysed call (default argument values, module-level
+        and class-level objects): nodes allocated here are shared by every call."""
+        if isinstance(e, ast.Constant):
+            return e.value
+        self.retained_mode += 1
+        try:
+            return self.eval(e, env)
+        finally:
+            self.retained_mode -= 1
 
     def instantiate(self, cinfo: ClassInfo, args, kwargs):
         prog = self.prog
@@ -1074,6 +1090,20 @@ class Interp:
             if isinstance(attr, str):
                 v = self.getattr_(obj, attr, default=_MISSING, probe=True)
                 return v is not _MISSING
+        if name in ("all", "any"):
+            v = args[0]
+            if isinstance(v, (Lst, Tup)):
+                for x in v.items:
+                    t = self.truth(x, name)
+                    if name == "all" and not t:
+                        return False
+                    if name == "any" and t:
+                        return True
+                return name == "all"
+        if name == "sorted":
+            v = args[0]
+            if isinstance(v, (Lst, Tup)) and all(isinstance(x, str) for x in v.items):
+                return Lst(sorted(v.items))
         if name == "super":
             raise Unsupported("super() outside method")
         if name == "id":
@@ -1504,7 +1534,11 @@ class Interp:
                     c = const_fold(self.prog, r[2], r[1])
                     return self._lift(c)
                 except ValueError:
-                    return self.eval(r[1], Env(self, None, r[2]))
+                    key = (r[2].name, e.id)
+                    memo = self.__dict__.setdefault("_module_objs", {})
+                    if key not in memo:
+                        memo[key] = self._eval_retained(r[1], Env(self, None, r[2]))
+                    return memo[key]
             if r[0] == "extmod":
                 return Ext(r[1])
             if r[0] == "ext":
@@ -1517,6 +1551,9 @@ class Interp:
             return {"True": True, "False": False, "None": None}[e.id]
         if e.id in _EXC_NAMES:
             return Builtin(e.id)
+        import builtins as _b
+        if hasattr(_b, e.id):
+            raise Unsupported(f"builtin {e.id} is not modelled (at {self.site})")
         raise AbsRaise("NameError", self.site, e.id)
 
     def _lift(self, c):
@@ -1821,7 +1858,7 @@ def _return_index(fn: ast.FunctionDef, st: ast.Return) -> int:
     return m.get(id(st), -1)
 
 
-_BUILTINS = {"isinstance", "len", "bool", "print", "str", "repr", "type", "list", "tuple", "set", "int", "float",
+_BUILTINS = {"all", "any", "sorted", "isinstance", "len", "bool", "print", "str", "repr", "type", "list", "tuple", "set", "int", "float",
              "abs", "min", "max", "range", "enumerate", "getattr", "hasattr", "super", "id", "dict"}
 _EXC_NAMES = {"ValueError", "Exception", "NotImplementedError", "TypeError", "IndexError", "KeyError",
               "AssertionError", "AttributeError", "EnvironmentError", "RuntimeError"}
